@@ -726,7 +726,7 @@ def _ftd_req(c):
 
 REG.contract('Cluster.finished_task_time_data', requires=_ftd_req,
              ensures=lambda c: [('C04-one-column-per-task-in-the-finished-map', DF_COLS(c.result.t) == CV(c.o.self).fin.nk)],
-             result='any', props=['C04', 'C11'],
+             result='dframe', props=['C04', 'C11'],
              note="C11: the table is a pure function of the cluster state (empty frame: nothing may be cached on the cluster)")
 REG.loop('Cluster.finished_task_time_data', 0, inv=_ftd_inv, modifies_locals=['task'], modifies=['task_data'], props=['C04', 'C11'])
 
